@@ -48,6 +48,7 @@ package mount
 
 //@ func (fs *FS) Open(name string) (f hackpadfs.File, err error)
 //@   props C06 C04
+//@   modifies world()
 //@   requires fs != nil
 //@   ensures "delegates" f == old(ret("hackpadfs.(FS).Open", 0, ret("mount.(*FS).Mount", 0, fs, name), ret("mount.(*FS).Mount", 1, fs, name))) &&
 //@                       err == old(ret("hackpadfs.(FS).Open", 1, ret("mount.(*FS).Mount", 0, fs, name), ret("mount.(*FS).Mount", 1, fs, name))) &&
@@ -67,7 +68,7 @@ package mount
 //@ func (fs *FS) addMount(p string, mountFS hackpadfs.FS) (err error)
 //@   props C06
 //@   requires fs != nil && mountFS != nil && !held(fs.mountMu)
-//@   modifies mapOf(fs.mounts)
+//@   modifies mapOf(fs.mounts), world()
 //@   ensures "invalid" implies(!VP(p) || p == ".", err == hackpadfs.ErrInvalid)
 //@   ensures "exists" implies(VP(p) && p != "." && old(in(p, dom(fs.mounts))), errIs(err, hackpadfs.ErrExist))
 //@   ensures "table" implies(err == nil, in(p, dom(fs.mounts)) && fs.mounts[p] == mountFS && !old(in(p, dom(fs.mounts))) &&
@@ -80,7 +81,7 @@ package mount
 //@ func (fs *FS) AddMount(path string, mount hackpadfs.FS) (err error)
 //@   props C06 C05
 //@   requires fs != nil && mount != nil && !held(fs.mountMu)
-//@   modifies mapOf(fs.mounts)
+//@   modifies mapOf(fs.mounts), world()
 //@   ensures "errtype" implies(err != nil, isPathError(err) && pathOf(err) == path)
 //@   ensures "invalid" implies(!VP(path) || path == ".", errIs(err, hackpadfs.ErrInvalid))
 //@   ensures "exists" implies(VP(path) && path != "." && old(in(path, dom(fs.mounts))), errIs(err, hackpadfs.ErrExist))
@@ -118,6 +119,7 @@ package mount
 
 //@ func (fs *FS) Rename(oldname string, newname string) (err error)
 //@   props C06 C05
+//@   modifies world()
 //@   requires fs != nil
 //@   opaque mountPoint keep nonnil
 //@   ensures "stat-error" implies(old(rStatErr(fs, oldname)) != nil, isLinkError(err) && oldOf(err) == oldname && newOf(err) == newname &&
